@@ -1686,15 +1686,31 @@ class Frame {
   size_t offset;
   // The running maximum size of the frame.
   size_t size;
+  // The deepest offset reached since the last call to beginPeak().
+  size_t peak;
   // Exit label.
   std::string exitLabel;
 
 public:
-  Frame(std::string exitLabel) : offset(0), size(0), exitLabel(exitLabel) {}
+  Frame(std::string exitLabel) : offset(0), size(0), peak(0), exitLabel(exitLabel) {}
   int getSize() { return size; }
   void incOffset(int amount) {
     offset += amount;
     size = std::max(size, offset); // +1 since it's an offset?
+    peak = std::max(peak, offset);
+  }
+  /// Start tracking the deepest offset reached and return the enclosing peak.
+  size_t beginPeak() {
+    auto enclosing = peak;
+    peak = offset;
+    return enclosing;
+  }
+  /// Return the deepest offset reached since beginPeak() and resume tracking
+  /// for the enclosing region.
+  size_t endPeak(size_t enclosing) {
+    auto reached = peak;
+    peak = std::max(enclosing, reached);
+    return reached;
   }
   void decOffset(int amount) {
     offset -= amount;
@@ -2561,14 +2577,22 @@ public:
   void loadActuals(const std::vector<std::unique_ptr<Expr>> &args, size_t parameterOffset,
                    const std::string &currentScope) {
     size_t parameterIndex = parameterOffset;
+    // The saved values of the actuals containing calls occupy the next stack
+    // words; temporaries used by the other actuals must not overlap them.
+    size_t savedActualOffset = currentFrame->getOffset();
+    for (auto &arg : args) {
+      if (containsCall(arg)) {
+        currentFrame->incOffset(1);
+      }
+    }
     for (auto &arg : args) {
       if (containsCall(arg)) {
         // For each actual expression containing one or more calls, load the
         // expression value saved to a temporary stack location and store it
         // to the actual parameter location.
         genLDAM(SP_OFFSET);
-        genLDAI_FB(currentFrame, -currentFrame->getOffset());
-        currentFrame->incOffset(1);
+        genLDAI_FB(currentFrame, -savedActualOffset);
+        savedActualOffset++;
         genLDBM(SP_OFFSET);
         genSTAI(parameterIndex);
       } else {
@@ -2585,9 +2609,12 @@ public:
   void genSysCall(int syscallId, const std::vector<std::unique_ptr<Expr>> &args,
                   const std::string &currentScope) {
     auto stackOffset = currentFrame->getOffset();
+    auto enclosingPeak = currentFrame->beginPeak();
     // Actual parameters.
     genCallActuals(args, currentScope);
     loadActuals(args, FB_PARAM_OFFSET_FUNC, currentScope);
+    // The parameter area lies below every temporary used by the actuals.
+    currentFrame->setOffset(currentFrame->endPeak(enclosingPeak));
     currentFrame->incOffset(args.size() + FB_PARAM_OFFSET_FUNC);
     // Perform syscall.
     genLDAC(syscallId);
@@ -2601,9 +2628,12 @@ public:
   void genFuncCall(const std::string &name, const std::vector<std::unique_ptr<Expr>> &args,
                    const std::string &currentScope) {
     auto stackOffset = currentFrame->getOffset();
+    auto enclosingPeak = currentFrame->beginPeak();
     // Actual parameters.
     genCallActuals(args, currentScope);
     loadActuals(args, FB_PARAM_OFFSET_FUNC, currentScope);
+    // The parameter area lies below every temporary used by the actuals.
+    currentFrame->setOffset(currentFrame->endPeak(enclosingPeak));
     currentFrame->incOffset(args.size() + FB_PARAM_OFFSET_FUNC);
     // Branch and link.
     auto linkLabel = getLabel();
@@ -2619,9 +2649,12 @@ public:
   void genProcCall(const std::string &name, const std::vector<std::unique_ptr<Expr>> &args,
                    const std::string &currentScope) {
     auto stackOffset = currentFrame->getOffset();
+    auto enclosingPeak = currentFrame->beginPeak();
     // Actual parameters.
     genCallActuals(args, currentScope);
     loadActuals(args, FB_PARAM_OFFSET_PROC, currentScope);
+    // The parameter area lies below every temporary used by the actuals.
+    currentFrame->setOffset(currentFrame->endPeak(enclosingPeak));
     currentFrame->incOffset(args.size() + FB_PARAM_OFFSET_PROC);
     // Branch and link.
     auto linkLabel = getLabel();
